@@ -21,7 +21,7 @@ structure Inv0 (s : Sk Rat) (ins L : List E) : Prop where
   perm : ins.Perm (s.H ++ L)
   pos : ∀ e ∈ ins, 0 < e.wt
   marks : MarksOK s.gadget s.numMarksInH s.H
-  warm : s.R = [] → L = [] ∧ s.H.length ≤ s.k
+  warm : s.R = [] → L = [] ∧ s.H.length ≤ s.k ∧ s.totalWtR = 0
   est : s.R ≠ [] → EstInv s L
 
 structure Inv (s : Sk Rat) (ins L : List E) : Prop extends Inv0 s ins L where
@@ -43,10 +43,10 @@ theorem mem_of_mem_set_tail {α : Type} {l : List α} {i : Nat} {a x : α} (ha :
     new tau is at least the old one (`W0 / r0`). -/
 theorem growCandidateSet_spec (s : Sk Rat) (L ins : List E) (wt : Rat) (nc : Nat) (W0 : Rat) (r0 : Nat) (ds : Draws Rat)
     (hmid : Mid s.H s.M L s.R s.k wt nc W0 r0 ins) (hmk : MarksOK s.gadget s.numMarksInH s.H)
-    (hk : 1 ≤ s.k) (hst : s.mStale = false) (hn : s.n = ins.length) :
-    ∃ s' ds' L', growCandidateSet s wt nc ds = (s', ds') ∧ Inv s' ins L' ∧ s'.R ≠ [] ∧
+    (hk : 1 ≤ s.k) (hst : s.mStale = false) :
+    ∃ s' ds' L', growCandidateSet s wt nc ds = (s', ds') ∧ Inv0 s' ins L' ∧ s'.R ≠ [] ∧
       W0 * (s'.R.length : Rat) ≤ s'.totalWtR * (r0 : Rat) ∧
-      s'.k = s.k ∧ s'.gadget = s.gadget ∧ s'.rf = s.rf := by
+      s'.k = s.k ∧ s'.gadget = s.gadget ∧ s'.rf = s.rf ∧ s'.n = s.n := by
   obtain ⟨H', M', nm', wt', nc', hgl, hmid', hmk', hheavy⟩ :=
     growLoop_spec s.gadget s.H.length s.H s.M s.numMarksInH wt nc (le_refl _) hmid hmk
   unfold growCandidateSet
@@ -77,8 +77,8 @@ theorem growCandidateSet_spec (s : Sk Rat) (L ins : List E) (wt : Rat) (nc : Nat
     have hnc1 : (0 : Rat) < (nc' : Rat) - 1 := by
       have : (2 : Rat) ≤ (nc' : Rat) := by exact_mod_cast hnc2
       linarith
-    refine ⟨_, ds1, M' ++ L, rfl, ?_, ?_, ?_, rfl, rfl, rfl⟩
-    · refine { kpos := hk, mnil := rfl, fresh := hst, n_eq := hn, perm := hmid'.perm, pos := hmid'.pos,
+    refine ⟨_, ds1, M' ++ L, rfl, ?_, ?_, ?_, rfl, rfl, rfl, rfl⟩
+    · refine { kpos := hk, mnil := rfl, fresh := hst, perm := hmid'.perm, pos := hmid'.pos,
                marks := hmk', warm := ?_, est := ?_ }
       · intro h
         have : (((c0 :: ct).set del c0).tail).length = 0 := by simp only [] at h; rw [h]; rfl
